@@ -17,6 +17,7 @@ claimed = {
  "C14": ("exploration", DST + "per-iteration equality with stand-alone re-execution + init/destroy accounting", "multi-iteration runs whose predecessors complete, are stopped by the scheduler at a drawn decision, or are cut by ContinueAfter; every iteration must equal the fresh stand-alone execution of its own schedule (snapshot of clock/schedule length/name/labels, decisions, draws, events) and destroy everything it initialised (TLS, lazy statics, stack values)", "stand-alone runs in the same process with a fresh Runner and the harness's own FollowSched; F17 pinned in a child process"),
  "C15": ("exploration", DST + "happens-before derivation from the event log vs sampled vector clocks", "clock() sampled after every operation; edges derived by API rules: every edge must be reflected by clock dominance, per-task monotonicity, exactness (no spurious order, also via VectorClock::partial_cmp) on the restricted family whose edge set is complete, and target-clock replay must keep the causal past", "exactness only on the restricted family (no try-ops/condvar/barrier/once/bounded channels); rendezvous send compared as of publication; F19 keyed separately"),
  "C16": ("fault_enumeration", "deterministic simulation with fault injection (stored-artefact corruption sweep over recorded schedules) + seeded boundary-biased input generation", "round trip in three layouts; every truncation point, version classes, non-hex, over-long declared length must be rejected by return value", "decoder in-process under catch_unwind; aborts attributed by the coordinator"),
+ "C18": ("exploration", DST + "lockstep reference model of a counting semaphore with FIFO/any-waiter modes + available-permits observation after every operation", "threads acquire/try/release/close/cancel (Acquire polled once or twice then dropped) on fair and unfair BatchSemaphores; results, available permits after every operation (conservation), offered sets, verdict against the model", "acquisitions issued from threads; two-poll cancellation on unfair semaphores excluded (known finding F9, pinned witness)"),
 }
 checks = []
 for pid,(cat,tech,text,note) in sorted(claimed.items()):
